@@ -26,6 +26,12 @@ def shard(sh: Shard, seed, wseed, cases):
             if c.get("follow"):
                 expanded.append({"start": c["follow"][0], "length": c["follow"][1], "fault": {"kind": "none"}, "id": f"{c['id']}f"})
                 sh.count("threaded_follow_up_transfers")
+        if wseed == 0:
+            # one long-lived connection per run: 200 small fault-free transfers in a row, so that the
+            # request counter passes through every value of its cycle (and wraps) on STATU requests
+            lr = rng("C01tlong", seed)
+            expanded = [{"start": lr.randrange(0, 1000), "length": lr.choice([1, 2, 5, 20, 39]), "fault": {"kind": "none"}, "id": f"long{k}"} for k in range(200)] + expanded
+            sh.count("threaded_long_connection_transfers", 200)
         twin = None
         for case in expanded:
             cr = rng("C01tcase", seed, wseed, case["id"])
@@ -328,6 +334,7 @@ def add(run, tier, seed):
     run.need(run.counters.get("threaded_success", 0) > 60 and run.counters.get("threaded_failure", 0) > 2, "threaded structure: too few successful/failed transfers")
     run.need(run.counters.get("threaded_transfers_with_reconfigured_retry_count", 0) >= 6, "threaded structure: retry count never reconfigured at run time")
     run.need(run.counters.get("threaded_follow_up_transfers", 0) >= 6, "threaded structure: no fault-free transfer right after a failed one")
+    run.need(run.counters.get("threaded_long_connection_transfers", 0) >= 200, "threaded structure: the long-lived connection (request counter through its whole cycle) was not driven")
     run.need(run.counters.get("threaded_nested_transfers", 0) >= 4, "threaded structure: no transfer started from inside a change notification")
     run.need(run.counters.get("threaded_twin_transfers", 0) >= 4 or run.counters.get("threaded_twin_could_not_connect", 0) > 0, "threaded structure: no overlapping transfers on two client objects")
     fk = run.sets.get("threaded_fault_kinds", set())
